@@ -366,6 +366,58 @@ func (e *env) judge(ver, class, hash, want string, changed bool) {
 	}
 }
 
+// framing: two transactions that differ in TWO adjacent fields of the semantic encoding at once (bytes moved from the
+// end of the arbitrary data into the optional Foundation address that follows it, or between attestation key and
+// value) must still have different IDs and signature hashes: a variable-length field must be framed.
+func (e *env) framing(cs consensus.State, blk types.Block) {
+	for ti := range blk.V2Transactions() {
+		base := chaingen.CloneV2(blk.V2.Transactions[ti])
+		// A: arbitrary data = X || 0x01 || addr[:31], no Foundation address; B: arbitrary data = X, Foundation address = addr (last byte 0)
+		var addr types.Address
+		for i := 0; i < 31; i++ {
+			addr[i] = byte(0x40 + i)
+		}
+		x := append([]byte(nil), base.ArbitraryData...)
+		a, bb := chaingen.CloneV2(base), chaingen.CloneV2(base)
+		a.ArbitraryData = append(append(append([]byte(nil), x...), 0x01), addr[:31]...)
+		a.NewFoundationAddress = nil
+		bb.ArbitraryData = x
+		ad := addr
+		bb.NewFoundationAddress = &ad
+		e.b.Eval(1)
+		e.b.Count("framing_pairs", 1)
+		e.b.Distinct("framing", "arbitrary-data/foundation-address", len(x) > 0)
+		if a.ID() == bb.ID() || cs.InputSigHash(a) == cs.InputSigHash(bb) {
+			e.b.Violate("C12/id-collision/v2/arbitrary-data-vs-new-foundation-address", "two v2 transactions - one carrying extra arbitrary data, the other a Foundation address change - have the same ID / input signature hash: the arbitrary data is not framed in the semantic encoding", map[string]any{"arbitrary_data_len": len(x)})
+		}
+		// attestation key/value boundary
+		if len(base.Attestations) > 0 {
+			a2, b2 := chaingen.CloneV2(base), chaingen.CloneV2(base)
+			a2.Attestations[0].Key, a2.Attestations[0].Value = "keyAB", []byte("CD")
+			b2.Attestations[0].Key, b2.Attestations[0].Value = "keyABC", []byte("D")
+			e.b.Eval(1)
+			e.b.Count("framing_pairs", 1)
+			if a2.ID() == b2.ID() || cs.AttestationSigHash(a2.Attestations[0]) == cs.AttestationSigHash(b2.Attestations[0]) {
+				e.b.Violate("C12/id-collision/v2/attestation-key-vs-value", "moving a byte from an attestation's value into its key leaves the ID or the attestation signature hash unchanged", nil)
+			}
+		}
+		break
+	}
+	for ti := range blk.Transactions {
+		base := chaingen.CloneV1(blk.Transactions[ti])
+		// v1: two arbitrary-data entries "ab","c" vs "a","bc"
+		a, bb := chaingen.CloneV1(base), chaingen.CloneV1(base)
+		a.ArbitraryData = [][]byte{[]byte("ab"), []byte("c")}
+		bb.ArbitraryData = [][]byte{[]byte("a"), []byte("bc")}
+		e.b.Eval(1)
+		e.b.Count("framing_pairs", 1)
+		if a.ID() == bb.ID() {
+			e.b.Violate("C12/id-collision/v1/arbitrary-data-entries", "moving a byte between two arbitrary-data entries leaves the v1 transaction ID unchanged", nil)
+		}
+		break
+	}
+}
+
 // eras: the v1 signature hash of a transaction with inputs must differ between replay-prefix eras
 func (e *env) eras(cs consensus.State, blk types.Block) {
 	n := e.c.Net.N
@@ -500,6 +552,7 @@ func run(b *harness.B) {
 			e.collect(cs, orig)
 			e.fields(cs, orig)
 			e.eras(cs, orig)
+			e.framing(cs, orig)
 			e.blockBinding(cs, orig, bs)
 		}
 		for done := 0; done < blocks; {
@@ -528,6 +581,6 @@ func main() {
 		Run:         run,
 		MinEvals:    5000,
 		MinDistinct: 150,
-		Require:     []string{"accepted_blocks", "effect_bearing_changes_detected", "exempt_changes_ignored", "derived_ids_in_collision_table", "era_separation_cases", "block_mutations_changing_the_id", "block_mutations_rejected_with_same_id"},
+		Require:     []string{"accepted_blocks", "effect_bearing_changes_detected", "exempt_changes_ignored", "derived_ids_in_collision_table", "era_separation_cases", "framing_pairs", "block_mutations_changing_the_id", "block_mutations_rejected_with_same_id"},
 	})
 }
